@@ -154,6 +154,17 @@ ROUND9 = {
 for _k, _v in ROUND9.items():
     CHECKS[_k]["technique"] += _v
 
+# round 10
+ROUND10 = {
+ "C05": "; well-formed responses repeated for a still-registered op id as a hostile input class",
+ "C06": "; duplicate response fed while the first is buffered and the caller picks it up inside the reader's handling of the duplicate",
+ "C07": "; backlog inside the subscriber at Unsubscribe followed by a new subscription on the same transport object",
+ "C14": "; handler response headers that leave 0..few hundred bytes of room below the NATS output limit combined with every error outcome, raw reply frame judged",
+ "C17": "; long histories: the process-wide op id counter moved (verif hook VerifSetNextOpID, quiescent) to just below 2^16 / 2^31 / 2^32 / 2^33 / 2^53 / 2^63 and crossed by the real code from 4 goroutines, ids joined to the run-wide uniqueness set",
+}
+for _k, _v in ROUND10.items():
+    CHECKS[_k]["technique"] += _v
+
 def main():
     props = [json.loads(l) for l in open(os.path.join(ROOT, "properties.jsonl"))]
     checks, na = [], []
